@@ -233,6 +233,8 @@ def gen(seed, profile='general', big=False):
 
     arrays = rng.randint(1, 4)
     max_ingest = rng.randint(1, nm)
+    if rng.random() < P.get('wide_limit', 0.08):
+        max_ingest = nm + rng.randint(1, 2)     # an ingest-machine limit above the size of the cluster (legal)
     nobs = pick('nobs', {1: 25, 2: 40, 3: 25, 4: 10})
     hot_rate = rng.choice([2, 5, 10])
     cold_rate = rng.choice([1, 2, 5, 10, 20])
@@ -377,6 +379,8 @@ def gen(seed, profile='general', big=False):
             obs[i]['wf'] = 0
             continue
         n = pick('ntasks', {1: 15, 2: 20, 3: 20, 4: 15, 5: 10, 6: 10, 8: 10})
+        if monitor == 'light' and rng.random() < P.get('huge_wf', 0.008):
+            n = rng.choice([33, 36, 40])        # a workflow of more than thirty tasks
         shape = pick('shape', {'single': 8, 'chain': 18, 'forkjoin': 18, 'diamond': 14,
                                'disconnected': 12, 'random': 30})
         # node ids are permuted and the file order shuffled in half of the workflows, so that neither
@@ -459,6 +463,8 @@ def gen(seed, profile='general', big=False):
                 faults['stalls'][o['name']] = sorted(rng.sample(range(0, 12), rng.randint(1, 4)))
     if rng.random() < fk.get('F4', 0):
         faults['perm'] = {'seed': rng.randint(0, 10 ** 6)}
+    if rng.random() < P.get('copy_machines', 0.05):
+        faults['copy_machines'] = True      # legal user algorithm: hands back equal copies of the cluster's Machine objects
     if rng.random() < P.get('ontime_status', 0.06):
         faults['ontime_status'] = True      # legal user algorithm: reports ON_TIME instead of SCHEDULED while it works
     if pairing == 'batch' and rng.random() < P.get('norelease', 0.25):
@@ -530,10 +536,10 @@ PROFILES = {
               'buffer': {'ample': 95, 'wait': 5}, 'monitor': 'real',
               'dur': {1: 25, 2: 30, 3: 25, 4: 20}, 'unit': {'seconds': 90, 'custom': 10},
               'dists': ['normal', 'normal', 'poisson', 'uniform']},
-    'units': {'real_time': 0.0, 'frac_caps': 0.0, 'zero_ingest': 0.0, 'unit': {'custom': 55, 'minutes': 18, 'hours': 18, 'misspelt': 9}, 'hetero': 0.0, 'frac_start': 0.0, 'big_units': 0.4, 'zero_rate': 0.06,
+    'units': {'real_time': 0.05, 'frac_caps': 0.0, 'zero_ingest': 0.0, 'unit': {'custom': 55, 'minutes': 18, 'hours': 18, 'misspelt': 9}, 'hetero': 0.0, 'frac_start': 0.0, 'big_units': 0.4, 'zero_rate': 0.06,
               'frac_rate': 0.0, 'frac_speed': 0.0,
               'comp': {1: 40, 2: 30, 3: 20, 4: 10},
-              'dur': {1: 40, 2: 35, 3: 25}, 'buffer': {'ample': 95, 'wait': 5},
+              'dur': {1: 40, 2: 35, 3: 25}, 'buffer': {'ample': 87, 'wait': 5, 'over': 8},
               'nobs': {1: 45, 2: 40, 3: 15}, 'ntasks': {1: 25, 2: 30, 3: 25, 4: 20},
               'faults': {'F1': 0.0, 'F3': 0.0, 'F4': 0.0}},
 }
